@@ -978,7 +978,11 @@ fn mpmc_round(r: &[Op], flavour: Flavour) -> Vec<Op> {
 // ---- churn scenarios (C16) -----------------------------------------------------------------
 
 pub fn churn_scenario(opts: ExecOpts, rounds_max: usize) -> BoxedStrategy<Scenario> {
-    let q = qcfg(BOTH, FutMode::Mixed, prop_oneof![Just(1u8), Just(2u8)].boxed(), wait_no_notify());
+    churn_scenario_with(opts, rounds_max, wait_any())
+}
+
+pub fn churn_scenario_with(opts: ExecOpts, rounds_max: usize, wait: BoxedStrategy<WaitKind>) -> BoxedStrategy<Scenario> {
+    let q = qcfg(BOTH, FutMode::Mixed, prop_oneof![Just(1u8), Just(2u8)].boxed(), wait);
     let round = wunion(vec![
         // add a stream and drop it again (retires the list twice, a position, a token)
         (5, any::<bool>().prop_map(|u| vec![Op::AddStream { rx: 0 }, if u { Op::UnsubRx { rx: 65535 } } else { Op::DropRx { rx: 65535 } }]).boxed()),
@@ -1124,7 +1128,7 @@ pub fn mem_churn_scenario(opts: ExecOpts, cycle_choices: &'static [u32]) -> Boxe
 /// churn scenarios (many retirements, so that reclamation epochs are opened and the manager
 /// locks are taken often) with solo-run probes inserted at generated positions (C18)
 pub fn probe_churn_scenario(opts: ExecOpts) -> BoxedStrategy<Scenario> {
-    (churn_scenario(opts, 24), vec((any::<u16>(), any::<u16>(), 0u8..3), 2..8))
+    (churn_scenario_with(opts, 24, wait_no_notify()), vec((any::<u16>(), any::<u16>(), 0u8..3), 2..8))
         .prop_map(|(mut sc, probes)| {
             for (psel, pos, kind) in probes {
                 let nprog = sc.progs.len() - 1;
